@@ -120,7 +120,12 @@ def run_case(case, cl=None):
     desc = f"transport={case['transport']} greeting={case['greeting']!r} statements={sent_texts!r}"
 
     def session():
-        if case["transport"] == "serial":
+        if case["transport"] == "serial" and case.get("restart"):
+            # the writer class both wrappers delegate to, used directly: its
+            # disconnect() takes the wait flag
+            from gscrib.writers import PrintrunWriter
+            w = PrintrunWriter("serial", "none", "/dev/ttyVERIF", 115200)
+        elif case["transport"] == "serial":
             w = SerialWriter("/dev/ttyVERIF", 115200)
         else:
             w = SocketWriter("127.0.0.1", front.port)
@@ -134,6 +139,12 @@ def run_case(case, cl=None):
                 if done[0] == "hang":
                     state["skip"] = "connect() did not return"
                     return
+                if done[0] == "exc" and case.get("frag") and case["transport"] == "socket":
+                    # the device's greeting and handshake replies arrive cut into
+                    # several packets: a sender that cannot put them together
+                    # never comes online
+                    raise Violation(f"connect() failed although the device answered (replies "
+                                    f"cut into several TCP packets, {case['frag']}): {done[1]!r}; {desc}")
                 if done[0] == "exc":
                     raise HarnessError(f"connect() failed against the simulator: {done[1]!r}")
                 t0 = time.time()
@@ -171,6 +182,36 @@ def run_case(case, cl=None):
             for k, (st_, txt) in enumerate(zip(case["stmts"], sent_texts)):
                 gate = f"g{k}"
                 box = {}
+                if case.get("restart") and case["transport"] == "serial" and case["drain"] \
+                        and k == case["restart"]["at"] % len(sent_texts) and k > 0 \
+                        and not fw.lost and pending_alarm is None:
+                    # the session is closed (waiting or not) and the SAME writer
+                    # object is connected again: later statements are delivered
+                    # and acknowledged as before
+                    r = run_with_timeout(lambda: w.disconnect(case["restart"]["wait"]), 6.0)
+                    if r[0] == "hang":
+                        raise Violation(f"disconnect({case['restart']['wait']}) did not return; {desc}")
+                    from vf.firmware import FakeSerial
+                    FakeSerial.firmware = fw       # (a second writer may have pointed it elsewhere)
+                    if "G4 P0" in behaviours:      # Grbl: hold the probe's ok back again
+                        with fw.lock:
+                            fw.gates["hs"] = threading.Event()
+                        threading.Timer(0.25, lambda: fw.release("hs")).start()
+                    r = run_with_timeout(w.connect, 12.0)
+                    if r[0] != "ok":
+                        raise Violation(f"connect() after disconnect({case['restart']['wait']}) on "
+                                        f"the same writer: {r!r}; {desc}")
+                    t0, quiet = time.time(), None
+                    while time.time() - t0 < 5:
+                        if fw.pending() == 0:
+                            quiet = quiet or time.time()
+                            if time.time() - quiet > 0.06:
+                                break
+                        else:
+                            quiet = None
+                        time.sleep(0.004)
+                    cl.add("writer_reconnected_after_disconnect_" +
+                           ("wait" if case["restart"]["wait"] else "nowait"))
                 lost_before = fw.lost
                 if pending_alarm is not None:
                     # let the reader consume the unsolicited error line first
@@ -419,6 +460,8 @@ def strategy():
         "second_writer": st.sampled_from([False, False, True]),
         "short_timeout": st.sampled_from([False, False, True]),
         "frag": st.sampled_from([None, None, "lf_alone", "halves"]),
+        "restart": st.one_of(st.none(), st.none(), st.none(), st.fixed_dictionaries(
+            {"at": st.integers(1, 7), "wait": st.booleans()})),
         "lose_last": st.one_of(st.just(False), st.just(False), st.just(True),
                                st.integers(0, 7))}).map(_finish)
 
